@@ -56,7 +56,17 @@ static unsigned long long c12_probe(tjhandle h, c12_mat *m, int prec, char *desc
   rc3 = tj3Transform(h, m->prog, m->nprog, 1, &jp2, &jn2, &xf);
   if (rc3 == 0) MIXB(jp2, jn2); else { const char *e = tj3GetErrorStr(h); MIXB(e, strlen(e)); }
   hp[3] = hsh;
-  snprintf(desc, dsz, "c%d/%zu:%llx d%d:%llx icc%d/%zu:%llx t%d/%zu:%llx", rc1, jn, hp[0], rc2, hp[1], rc4, iccn, hp[2], rc3, jn2, hp[3]);
+  {
+    /* a second transformation, of the image that carries an ICC profile (APP2 segments): which extra markers reach the output is decided by
+       the current TJPARAM_SAVEMARKERS alone, not by the values it had during earlier calls on the instance */
+    unsigned char *jp3 = NULL; size_t jn3 = 0; int rc5; unsigned long long h4;
+    memset(&xf, 0, sizeof(xf)); xf.op = TJXOP_NONE; xf.options = 0;
+    rc5 = tj3Transform(h, m->icc, m->nicc, 1, &jp3, &jn3, &xf);
+    if (rc5 == 0) MIXB(jp3, jn3); else { const char *e = tj3GetErrorStr(h); MIXB(e, strlen(e)); }
+    h4 = hsh;
+    snprintf(desc, dsz, "c%d/%zu:%llx d%d:%llx icc%d/%zu:%llx t%d/%zu:%llx m%d/%zu:%llx", rc1, jn, hp[0], rc2, hp[1], rc4, iccn, hp[2], rc3, jn2, hp[3], rc5, jn3, h4);
+    tj3Free(jp3);
+  }
   tj3Free(jp); tj3Free(jp2); tj3Free(icc);
   return hsh;
 }
